@@ -20,6 +20,12 @@ Theorem C17_value_roundtrip : forall v, good v -> forall fuel tail, (vsize v <= 
 Proof. intros v. apply value_roundtrip. right; reflexivity. Qed.
 Print Assumptions C17_value_roundtrip.
 
+(* the entry point itself: parse_json, whose fuel is the length of the text + 1, reads every
+   printed value back completely (nothing left over) *)
+Theorem C17_parse_json_stringify : forall v, good v -> parse_json json_hex_variant (stringify v) = JOk v [].
+Proof. exact parse_json_stringify. Qed.
+Print Assumptions C17_parse_json_stringify.
+
 Theorem C17_hex_window_panics_before_fix : parse_string 0 [34; 92; 117; 48; 48; 48; 233; 34] = JPanic.
 Proof. exact hex_window_panics_v0. Qed.
 
